@@ -1,7 +1,9 @@
 import EqsigVerif.Prelude.Wire
 import EqsigVerif.Model.PowerLaw
+import EqsigVerif.Model.SwitchedOut
 /-! driver handlers for `Model/PowerLaw.lean` (Float twin; the record travels twice: float bit patterns for the
-arithmetic and exact rationals for the index detection) -/
+arithmetic and exact rationals for the index detection — the repaired `get_switched_peak_array_indices`,
+`Model/SwitchedOut.lean`) -/
 namespace EqsigVerif.Handlers.PowerLaw
 open EqsigVerif EqsigVerif.Wire EqsigVerif.Model.PowerLaw EqsigVerif.Model.Switched
 
@@ -14,7 +16,7 @@ def nCycH : Handler
   | [aRef, b, cut, vf, vr] => do
     let aRef ← float1 aRef; let b ← float1 b; let cut ← float1 cut
     let vf ← floats vf; let vr ← rats vr
-    match switchedPeaksE vr 0 with
+    match switchedPeaksOutE vr 0 with
     | .error k => pure (.err k)
     | .ok idx =>
       let pk := idx.map (fun i => Float.abs (vf.getD i 0.0))
@@ -27,7 +29,7 @@ def cycAmpH : Handler
   | [nCyc, b, vf, vr] => do
     let nCyc ← float1 nCyc; let b ← float1 b
     let vf ← floats vf; let vr ← rats vr
-    match switchedPeaksE vr 0 with
+    match switchedPeaksOutE vr 0 with
     | .error k => pure (.err k)
     | .ok idx => pure (.ok [outFloats (cycAmpCore Float.pow (peakOnlyAbs vf idx) nCyc b)])
   | _ => throw "cyc_amp_power: expected 4 args"
